@@ -3,8 +3,14 @@
 // One binary, three uses:
 //   --scenario ID --schedule S        run ONE schedule of one scenario (stand-alone replayer, prints OBS lines)
 //   --tier T --phase P --shard k/K    explore every scenario of the tier's phase that falls in the shard (DFS of
-//                                     iterative context bounding, one `S ...` line per scenario)
-//   --tier T --phase op --free R ...  free-running pass (no scheduler, real concurrency), R repetitions / scenario
+//                                     iterative context bounding, one `S ...` line per scenario); --resume N skips
+//                                     scenarios with index < N (used after a crash = violation), --pin c binds the
+//                                     process to one CPU (only one thread runs at a time; cross-CPU futex wake-ups
+//                                     are ~10x slower than same-CPU ones), --budget-s stops cleanly when time is up
+//                                     --max-points P: a scenario whose default schedule has more than P points is
+//                                     not expanded (reported with a `K` line, never counted as covered)
+//   --tier T --phase op --free R --free-big R2   free-running pass (no scheduler, real concurrency): R repetitions
+//                                     per scenario, R2 for scenarios with more than 3 operations
 //
 // Builds (see checks/c20.py):
 //   plain/fine : -DC20_ARENA=1 -finstrument-functions       oracles (i) results and (iii) frozen arena
@@ -14,10 +20,15 @@
 //
 // Scenario id:  <kind>:<gran>:b<bound>:<ops of thread 0>/<ops of thread 1>[/<ops of thread 2>]
 //   gran  = op (scheduling points at thread start/exit and operation boundaries only)
-//         | fn (additionally every instrumented function entry inside an operation)
+//         | fn (additionally EVERY function entry inside an operation: amc, libstdc++ templates, harness helpers;
+//               needs the build with -finstrument-functions, C20_FINE=1)
+//         | fa (additionally every function entry of code outside /usr -- amc and harness helpers, not the libstdc++
+//               internals; build with -finstrument-functions-exclude-file-list=/usr/include,/usr/lib, C20_FINE=2)
 //   bound = U (all interleavings) | 0 | 1 | 2 ... (preemption bound)
 //   ops   = '+'-joined operation names of the kind's menu, e.g.  flatset:fn:b1:find_hit+eq/copy
 // Schedule: comma list of choices, `c*n` = choice c repeated n times; points beyond the list take choice 0.
+#include <sched.h>
+
 #include <cinttypes>
 #include <cstdio>
 #include <cstdlib>
@@ -46,7 +57,7 @@
 #ifndef C20_TSAN
 #define C20_TSAN 0
 #endif
-#ifndef C20_FINE /* set by the build that passes -finstrument-functions */
+#ifndef C20_FINE /* 1: built with -finstrument-functions; 2: same, libstdc++ headers excluded; 0: not instrumented */
 #define C20_FINE 0
 #endif
 
@@ -203,7 +214,7 @@ const std::vector<Kind> &kinds() {
 
 struct Scenario {
   int kind = 0;
-  int gran = 0;    // 0 = op, 1 = fn
+  int gran = 0;    // 0 = op, 1 = fn, 2 = fa
   int bound = -1;  // -1 = unbounded
   std::vector<std::vector<int>> thr;  // op indices per thread
 };
@@ -215,7 +226,8 @@ struct Scenario {
 
 std::string scenario_id(const Scenario &s) {
   const Kind &k = kinds()[s.kind];
-  std::string id = std::string(k.name) + (s.gran ? ":fn:b" : ":op:b") + (s.bound < 0 ? "U" : std::to_string(s.bound)) + ":";
+  static const char *const gran_name[] = {":op:b", ":fn:b", ":fa:b"};
+  std::string id = std::string(k.name) + gran_name[s.gran] + (s.bound < 0 ? "U" : std::to_string(s.bound)) + ":";
   for (size_t t = 0; t < s.thr.size(); t++) {
     if (t) id += "/";
     for (size_t i = 0; i < s.thr[t].size(); i++) {
@@ -252,6 +264,8 @@ Scenario parse_scenario(std::string id) {
     s.gran = 0;
   else if (f[1] == "fn")
     s.gran = 1;
+  else if (f[1] == "fa")
+    s.gran = 2;
   else
     harness_error("bad granularity in " + id);
   if (f[2].size() < 2 || f[2][0] != 'b') harness_error("bad bound in " + id);
@@ -269,6 +283,13 @@ Scenario parse_scenario(std::string id) {
   }
   if (s.thr.size() < 1 || s.thr.size() > SCHED_MAX_THREADS) harness_error("bad thread count in " + id);
   return s;
+}
+
+// each build supports operation granularity plus (at most) one function-entry granularity
+void require_gran(const Scenario &s) {
+  if (s.gran && s.gran != C20_FINE)
+    harness_error("granularity of " + scenario_id(s) + " is not what this binary was built for (C20_FINE=" +
+                  std::to_string(C20_FINE) + ")");
 }
 
 // schedule text <-> choice list
@@ -304,6 +325,7 @@ struct KindState {  // the shared containers of the kind being explored + the se
   int kind = -1;
   Shared sh;
   std::vector<uint64_t> expected;
+  std::vector<char> have;  // expected[i] computed?
 };
 KindState g_ks;
 
@@ -319,15 +341,28 @@ void enter_kind(int kind) {
   arena_freeze();  // from here on any write to the shared containers or their buffers faults
 #endif
   g_ks.expected.assign(k.ops.size(), 0);
-  for (size_t i = 0; i < k.ops.size(); i++)
-    if (!k.ops[i].hidden) {
-      snprintf(g_fault_ctx, sizeof g_fault_ctx, "scenario=%s:sequential:%s schedule=-", k.name, k.ops[i].name);
-      g_ks.expected[i] = k.ops[i].fn(g_ks.sh);  // run alone, on the main thread
+  g_ks.have.assign(k.ops.size(), 0);
+}
+
+// Oracle (i) reference: every operation of the scenario run ALONE on the main thread, once per kind and process,
+// before the scenario's first schedule.  Done lazily and under the scenario's context so that a fault in here (the
+// frozen arena is already read-only) is attributed to a scenario the driver can resume after.
+void need_expected(const Scenario &sc, const std::string &id, long idx) {
+  const Kind &k = kinds()[sc.kind];
+  for (auto &t : sc.thr)
+    for (int op : t) {
+      if (g_ks.have[op]) continue;
+      if (k.ops[op].hidden) {  // self-test operations return a constant
+        g_ks.expected[op] = !strcmp(k.ops[op].name, "selftest_race") ? 17 : 18;
+      } else {
+        snprintf(g_fault_ctx, sizeof g_fault_ctx, "scenario=%s index=%ld schedule=sequential:%s", id.c_str(), idx,
+                 k.ops[op].name);
+        g_ks.expected[op] = k.ops[op].fn(g_ks.sh);
 #if C20_ARENA
-      arena_recycle_private();
+        arena_recycle_private();
 #endif
-    } else {
-      g_ks.expected[i] = i == k.ops.size() - 2 ? 17 : 18;
+      }
+      g_ks.have[op] = 1;
     }
 }
 
@@ -352,16 +387,44 @@ void worker(int tid, const Scenario *sc, bool controlled, RunOut *out) {
   if (controlled) sched_thread_exit();
 }
 
+// Plain build: the workers of controlled runs come from a small pool of persistent threads (starting 2-3 threads
+// per schedule costs more than the schedule itself when millions of schedules are run).  Pool thread t takes part in
+// a run iff t < number of threads of the scenario; it parks in sched_thread_start() exactly like a fresh thread.
+// The TSan build always starts fresh threads: each schedule then has its own TSan thread ids and vector clocks, and
+// no harness-level hand-over of the job description can be mistaken for (or hide) a race.
+struct PoolJob {
+  const Scenario *sc = nullptr;
+  RunOut *out = nullptr;
+};
+PoolJob g_job;
+int g_pool_size = 0;
+
+void pool_thread(int tid) {
+  int seen = 0;
+  for (;;) {
+    // a participant may read g_job: main cannot start the next generation before this thread has exited this one
+    if (tid < sched_pool_wait(&seen)) worker(tid, g_job.sc, true, g_job.out);
+  }
+}
+
 // runs the scenario once; controlled: under the scheduler with the given prefix, else free-running
-void run_once(const Scenario &sc, bool controlled, const std::vector<int> &prefix, const unsigned char *expect_nen,
+void run_once(const Scenario &sc, bool controlled, const std::vector<int> &prefix, const unsigned *expect_sig,
               RunOut &out) {
 #if C20_ARENA
   arena_recycle_private();
 #endif
   memset(&out, 0, sizeof out);
   int nt = static_cast<int>(sc.thr.size());
+  if (controlled && !C20_TSAN) {
+    while (g_pool_size < SCHED_MAX_THREADS) std::thread(pool_thread, g_pool_size++).detach();
+    g_job = {&sc, &out};
+    sched_begin(nt, prefix.data(), static_cast<int>(prefix.size()), expect_sig);
+    sched_pool_release(nt);  // publishes g_job (release/acquire on the generation counter)
+    sched_run();             // returns after the last worker's sched_thread_exit(), i.e. after all results are stored
+    return;
+  }
   if (controlled)
-    sched_begin(nt, prefix.data(), static_cast<int>(prefix.size()), expect_nen);
+    sched_begin(nt, prefix.data(), static_cast<int>(prefix.size()), expect_sig);
   else
     sched_barrier_init(nt);
   std::thread th[SCHED_MAX_THREADS];
@@ -417,7 +480,9 @@ struct Explorer {
   long idx;
   uint64_t max_schedules;
   double deadline;
+  uint64_t max_points;  // 0 = no limit; else: do not expand a scenario whose default schedule has more points
   Stats st;
+  bool too_large = false;
 
   static double now() {
     timespec ts;
@@ -425,8 +490,8 @@ struct Explorer {
     return ts.tv_sec + ts.tv_nsec * 1e-9;
   }
 
-  // prefix: choices to replay; expect: the enabled-set sizes recorded for them (divergence check in the scheduler)
-  void explore(const std::vector<int> &prefix, const std::vector<unsigned char> &expect) {
+  // prefix: choices to replay; expect: identities of the points recorded for them (divergence check in the scheduler)
+  void explore(const std::vector<int> &prefix, const std::vector<unsigned> &expect) {
     if (st.schedules >= max_schedules || (deadline > 0 && now() > deadline)) {
       st.complete = false;
       return;
@@ -438,12 +503,14 @@ struct Explorer {
     int np = sched_npoints();
     const sched_rec *tr = sched_trace();
     std::vector<unsigned char> nen(np), cur(np), choice(np);
+    std::vector<unsigned> sig(np);
     uint64_t ih = 7;
     size_t fresh = prefix.empty() ? 0 : prefix.size() - 1;  // points before that were visited by the parent run
     for (int i = 0; i < np; i++) {
       choice[i] = tr[i].chosen;
       nen[i] = tr[i].nen;
       cur[i] = tr[i].cur_enabled;
+      sig[i] = sched_sig(&tr[i]);
       if (tr[i].next != tr[i].tid)  // a switch: (who stopped, where, who continues)
         ih = mix(ih, (static_cast<uint64_t>(tr[i].tid + 1) << 56) ^ (static_cast<uint64_t>(tr[i].opidx) << 40) ^
                          (static_cast<uint64_t>(tr[i].funcnt) << 8) ^ static_cast<uint64_t>(tr[i].next + 1));
@@ -452,6 +519,11 @@ struct Explorer {
     st.decisions += np;
     st.newpoints += np - fresh;
     if (static_cast<uint64_t>(np) > st.maxpoints) st.maxpoints = np;
+    if (prefix.empty() && max_points && static_cast<uint64_t>(np) > max_points) {
+      too_large = true;  // the caller reports the scenario as "not attempted at this bound", never as covered
+      st.complete = false;
+      return;
+    }
     st.interleavings.insert(ih);
     st.outcomes.insert(outcome_hash(sc, out));
     if (st.schedules == 1) st.first_schedule = schedule_text(prefix);
@@ -466,7 +538,7 @@ struct Explorer {
     // alternatives at every point this run was the first to reach
     int preempt = 0;
     std::vector<int> p;
-    std::vector<unsigned char> e;
+    std::vector<unsigned> e;
     for (int i = 0; i < np; i++) {
       if (static_cast<size_t>(i) >= prefix.size() && nen[i] > 1) {
         int cost = preempt + (cur[i] ? 1 : 0);
@@ -474,7 +546,7 @@ struct Explorer {
           for (int alt = 1; alt < nen[i]; alt++) {
             p.assign(choice.begin(), choice.begin() + i);
             p.push_back(alt);
-            e.assign(nen.begin(), nen.begin() + i + 1);
+            e.assign(sig.begin(), sig.begin() + i + 1);
             explore(p, e);
           }
         }
@@ -539,20 +611,6 @@ void handful_3(int kind, int gran, int bound, std::vector<Scenario> &out) {
   if (op_index(k, "ltL") >= 0)
     out.push_back({kind, gran, bound, {{op_index(k, "ltL")}, {op_index(k, "ltLr")}, {op_index(k, "eqL")}}});
 }
-// function-granularity bound 2: the scenarios where a second preemption could matter most -- the same operation
-// twice and the comparison pairs (both directions share the operands)
-void small_fn2(int kind, std::vector<Scenario> &out) {
-  const Kind &k = kinds()[kind];
-  const char *pairs[][2] = {{"size", "size"},     {"iter", "riter"},    {"find_hit", "find_miss"}, {"access", "access"},
-                            {"eq", "eqr"},        {"lt", "ltr"},        {"lt", "lt"},              {"ltL", "ltLr"},
-                            {"eqL", "eqLr"},      {"ltL", "lt"},        {"copy", "copy"},          {"copy", "mut"},
-                            {"find_hit", "copy"}, {"access", "copy"}};
-  for (auto &p : pairs) {
-    int a = op_index(k, p[0]), b = op_index(k, p[1]);
-    if (a >= 0 && b >= 0) out.push_back({kind, 1, 2, {{a}, {b}}});
-  }
-}
-
 std::vector<Scenario> enumerate(const std::string &tier, const std::string &phase) {
   std::vector<Scenario> out;
   bool thorough = tier == "thorough";
@@ -564,12 +622,19 @@ std::vector<Scenario> enumerate(const std::string &tier, const std::string &phas
         triples_3x1(kind, 0, -1, out);
         quads_2x2(kind, 0, -1, out);
       }
-    } else if (phase == "fn1") {  // function-entry granularity, every single preemption
+    } else if (phase == "fn1") {  // every function entry, every single preemption
       pairs_2x1(kind, 1, 1, out);
       handful_3(kind, 1, 1, out);
+    } else if (phase == "fn1t") {  // every function entry, every single preemption, 3 threads (thorough only; the
+                                   // driver passes --max-points, larger scenarios are covered by fa1 only)
       if (thorough) triples_3x1(kind, 1, 1, out);
-    } else if (phase == "fn2") {  // function-entry granularity, every pair of preemptions (thorough only)
-      if (thorough) small_fn2(kind, out);
+    } else if (phase == "fa1") {  // amc function entries, every single preemption, 3 threads (thorough only)
+      if (thorough) triples_3x1(kind, 2, 1, out);
+    } else if (phase == "fa2") {  // amc function entries, every pair of preemptions (thorough only, --max-points)
+      if (thorough) pairs_2x1(kind, 2, 2, out);
+    } else if (phase == "fn2") {  // every function entry, every pair of preemptions (thorough only; with
+                                  // --max-points, i.e. completed for the smaller scenarios only)
+      if (thorough) pairs_2x1(kind, 1, 2, out);
     } else {
       harness_error("unknown phase " + phase);
     }
@@ -590,8 +655,8 @@ static void death_callback() {  // TSan is about to kill the process: say which 
 int main(int argc, char **argv) {
   std::string scen, sched_s, tier = "quick", phase = "op";
   bool have_schedule = false, list = false;
-  long shard_k = 0, shard_n = 1, resume = 0, free_reps = 0;
-  uint64_t max_schedules = 2000000;
+  long shard_k = 0, shard_n = 1, resume = 0, free_reps = 0, free_big = 0, pin = -1;
+  uint64_t max_schedules = 2000000, max_points = 0;
   double budget_s = 0;
   for (int i = 1; i < argc; i++) {
     std::string a = argv[i];
@@ -617,8 +682,14 @@ int main(int argc, char **argv) {
       resume = atol(next().c_str());
     else if (a == "--free")
       free_reps = atol(next().c_str());
+    else if (a == "--free-big")
+      free_big = atol(next().c_str());
+    else if (a == "--pin")
+      pin = atol(next().c_str());
     else if (a == "--max-schedules")
       max_schedules = strtoull(next().c_str(), nullptr, 10);
+    else if (a == "--max-points")
+      max_points = strtoull(next().c_str(), nullptr, 10);
     else if (a == "--budget-s")
       budget_s = atof(next().c_str());
     else if (a == "--list")
@@ -630,10 +701,23 @@ int main(int argc, char **argv) {
       harness_error("unknown argument " + a);
   }
   setvbuf(stdout, nullptr, _IOLBF, 0);
+  if (pin >= 0) {  // bind to the pin-th CPU of the allowed set (best effort)
+    cpu_set_t allowed, one;
+    if (sched_getaffinity(0, sizeof allowed, &allowed) == 0 && CPU_COUNT(&allowed) > 0) {
+      long want = pin % CPU_COUNT(&allowed);
+      for (int c = 0; c < CPU_SETSIZE; c++)
+        if (CPU_ISSET(c, &allowed) && want-- == 0) {
+          CPU_ZERO(&one);
+          CPU_SET(c, &one);
+          sched_setaffinity(0, sizeof one, &one);
+          break;
+        }
+    }
+  }
 #if C20_ARENA
   arena_init();
-  install_fault_handler();
 #endif
+  install_fault_handler();  // both builds: a crash is reported with the scenario and schedule that was running
 #if C20_TSAN
   __sanitizer_set_death_callback(death_callback);
 #else
@@ -642,11 +726,12 @@ int main(int argc, char **argv) {
 
   if (!scen.empty()) {
     Scenario sc = parse_scenario(scen);
-    if (sc.gran && !C20_FINE) harness_error("function granularity needs the -finstrument-functions build");
+    require_gran(sc);
     for (auto &t : sc.thr)
       if (t.size() > kMaxOps) harness_error("too many operations per thread");
     enter_kind(sc.kind);
     std::string id = scen.rfind("selftest-", 0) == 0 ? scen : scenario_id(sc);
+    need_expected(sc, id, -1);
     if (have_schedule || free_reps) {  // stand-alone replay of one schedule (or R free runs)
       std::vector<int> prefix = parse_schedule(sched_s);
       int bad = 0;
@@ -666,7 +751,7 @@ int main(int argc, char **argv) {
       }
       return bad ? 1 : 0;
     }
-    Explorer ex{sc, id, -1, max_schedules, 0, {}};
+    Explorer ex{sc, id, -1, max_schedules, 0, max_points, {}};
     ex.explore({}, {});
     printf("S idx=-1 id=%s schedules=%" PRIu64 " decisions=%" PRIu64 " points=%" PRIu64 " maxpoints=%" PRIu64
            " inter=%zu outcomes=%zu complete=%d viol=%" PRIu64 " first=%s last=%s\n",
@@ -687,28 +772,37 @@ int main(int argc, char **argv) {
   for (size_t i = 0; i < all.size(); i++) {
     if (static_cast<long>(i % shard_n) != shard_k || static_cast<long>(i) < resume) continue;
     const Scenario &sc = all[i];
-    if (sc.gran && !C20_FINE) harness_error("function granularity needs the -finstrument-functions build");
+    require_gran(sc);
     std::string id = scenario_id(sc);
     if (deadline > 0 && Explorer::now() > deadline) {
       skipped++;
       continue;
     }
     enter_kind(sc.kind);
+    need_expected(sc, id, static_cast<long>(i));
     if (free_reps) {  // free-running pass: real concurrency, threads released together
       int bad = 0;
       std::string detail;
-      for (long r = 0; r < free_reps; r++) {
+      size_t nops = 0;
+      for (auto &t : sc.thr) nops += t.size();
+      long reps = (nops > 3 && free_big > 0) ? free_big : free_reps;
+      for (long r = 0; r < reps; r++) {
         set_context(id, static_cast<long>(i), {});
         RunOut out;
         run_once(sc, false, {}, nullptr, out);
         if (check_results(sc, out, &detail)) bad++;
       }
       if (bad) printf("V idx=%zu id=%s oracle=result schedule=free detail=%s\n", i, id.c_str(), detail.c_str());
-      printf("F idx=%zu id=%s runs=%ld viol=%d\n", i, id.c_str(), free_reps, bad);
+      printf("F idx=%zu id=%s runs=%ld viol=%d\n", i, id.c_str(), reps, bad);
       if (bad) rc = 1;
     } else {
-      Explorer ex{sc, id, static_cast<long>(i), max_schedules, deadline, {}};
+      Explorer ex{sc, id, static_cast<long>(i), max_schedules, deadline, max_points, {}};
       ex.explore({}, {});
+      if (ex.too_large) {  // K = skipped by the size rule: only its default schedule was run
+        printf("K idx=%zu id=%s points=%" PRIu64 " limit=%" PRIu64 "\n", i, id.c_str(), ex.st.maxpoints, max_points);
+        done++;
+        continue;
+      }
       printf("S idx=%zu id=%s schedules=%" PRIu64 " decisions=%" PRIu64 " points=%" PRIu64 " maxpoints=%" PRIu64
              " inter=%zu outcomes=%zu complete=%d viol=%" PRIu64 " first=%s last=%s\n",
              i, id.c_str(), ex.st.schedules, ex.st.decisions, ex.st.newpoints, ex.st.maxpoints,
